@@ -205,6 +205,7 @@ func (vlog *valueLog) rewrite(f *logFile) error {
 		if isDeletedOrExpired(e.meta, e.ExpiresAt) {
 			return nil
 		}
+		vhook.Point("gc.scan")
 
 		vs, err := vlog.db.get(e.Key)
 		if err != nil {
@@ -329,6 +330,8 @@ func (vlog *valueLog) rewrite(f *logFile) error {
 	if vlog.db.vlogGCPauseHook != nil {
 		vlog.db.vlogGCPauseHook()
 	}
+	vhook.Event("gc.scanned", uint64(f.fid), uint64(len(wb)))
+	vhook.Point("gc.scanned")
 
 	batchSize := 1024
 	var loops int
@@ -351,6 +354,7 @@ func (vlog *valueLog) rewrite(f *logFile) error {
 			return err
 		}
 		i += batchSize
+		vhook.Point("gc.batchWritten")
 	}
 	vlog.opt.Infof("Processed %d entries in %d loops", len(wb), loops)
 	vlog.opt.Infof("Total entries: %d. Moved: %d", count, moved)
@@ -373,11 +377,20 @@ func (vlog *valueLog) rewrite(f *logFile) error {
 		vlog.filesLock.Unlock()
 	}
 
+	if vhook.On {
+		deferred := uint64(0)
+		if !deleteFileNow {
+			deferred = 1
+		}
+		vhook.Event("gc.rewritten", uint64(f.fid), deferred)
+		vhook.Point("gc.beforeDelete")
+	}
 	if deleteFileNow {
 		if err := vlog.deleteLogFile(f); err != nil {
 			return err
 		}
 	}
+	vhook.Point("gc.done")
 	return nil
 }
 
@@ -405,6 +418,7 @@ func (vlog *valueLog) decrIteratorCount() error {
 	vlog.filesLock.Unlock()
 
 	for _, lf := range lfs {
+		vhook.Event("gc.deferredDelete", uint64(lf.fid), 0)
 		if err := vlog.deleteLogFile(lf); err != nil {
 			return err
 		}
@@ -1119,6 +1133,8 @@ func (vlog *valueLog) runGC(discardRatio float64) error {
 		if lf == nil {
 			return ErrNoRewrite
 		}
+		vhook.Event("gc.picked", uint64(lf.fid), 0)
+		vhook.Point("gc.picked")
 		return vlog.doRunGC(lf)
 	default:
 		return ErrRejected
